@@ -40,6 +40,11 @@ def base_scenario(rng, ctype, r, c, F, form, noisy, offgrid=False):
             # ... reaching far beyond the band on both sides, so that the
             # calibration frequencies sit in the middle of the knots
             sc.offgrid_margin = float(rng.uniform(0.6, 1.5))
+        if max(r, c) >= 3 and rng.random() < 0.5:
+            # multi-port standards with a one-way (non-reciprocal) zero
+            # pattern: which side of the diagonal a non-zero cell lands on
+            # then depends on the port numbering and on the port map
+            sc.pre_sparse = int(rng.integers(1, 3))
         sc.sufficient_recipe(extras=int(rng.integers(1, 4)))
         sc.choose_entries()
         ok, kappa = sc.well_determined(1e3)
@@ -219,6 +224,11 @@ def work(chunk_id, payload):
         p = int(rng.choice([1, 2, 2, 3, 3, 4]))
         if tr in ("renumber", "abbrev", "entry") and p == 1:
             p = 2
+        if tr == "renumber" and rng.random() < 0.5:
+            # three ports on a type that keeps leakage terms outside the
+            # linear system: the port grouping of sparse standards matters
+            p = 3
+            ctype = physics.LEAKAGE_OUTSIDE[int(rng.integers(0, 4))]
         r = c = p
         if tr not in ("renumber",) and rng.random() < 0.2 and p == 2:
             if ctype in physics.T_TYPES:
